@@ -119,9 +119,14 @@ package openapiv3
 
 // ---- termination measures of the recursive traversals (C16) ----
 
+// every message handed to processMessage gets a component schema under its schema name (C18: every $ref to a
+// collected message resolves), whatever package it comes from
 //@ func (g *Generator) processMessage(message *protogen.Message)
 //@   modifies *
 //@   decreases spec.mdepth(message)
+//@   at-call Set requires under_its_schema_name: arg0 == g.getSchemaName(message)
+//@   ensures registered: count("Set") >= old(count("Set")) + 1
+//@   loop 1 invariant count("Set") >= old(count("Set")) + 1
 
 // visited-set traversal of the type graph: terminates because the visited set grows (C16), and a message that
 // is newly visited has the messages of its fields, its map values and its nested definitions visited too (C18).
